@@ -74,6 +74,10 @@ def hostile_keys(rng, valid_pk, quick):
         out.append(("torsion", Z.enc_g1(T)))
         out.append(("non-subgroup", Z.enc_g1(E1.add(E1.mul(G1m, rng.randrange(1, R)), T))))
     out.append(("non-subgroup", Z.enc_g1(E1.rand_point(rng))))
+    # cofactor components lying in an eigenspace of the curve endomorphism (what a mis-parametrised fast subgroup test would accept)
+    for q in ((10177, 859267) if not quick else ((10177, 859267)[rng.randrange(2)],)):
+        for V in CG.eigen_torsion(E1, order, q, rng, tries=1):
+            out.append(("non-subgroup", Z.enc_g1(E1.add(E1.mul(G1m, rng.randrange(1, R)), V))))
     # non-canonical encodings of VALID keys: x + p where that still fits in 381 bits (about 23% of all x)
     for _ in range(40):
         Pt = E1.mul(G1m, rng.randrange(1, R))
